@@ -168,12 +168,38 @@ func (w *World) registerHTTPIntrinsics() {
 		e.requireStub(mkEq(opaque, mkStr("")), "url.URL.Opaque empty")
 		e.requireStub(mkEq(rawPath, mkStr("")), "url.URL.RawPath empty")
 		safe := reStar(reUnion(reRange('a', 'z'), reRange('A', 'Z'), reRange('0', '9'),
-			reLit("/"), reLit("-"), reLit("."), reLit("_"), reLit("~"), reLit("!"), reLit("$"), reLit("&"), reLit("'"),
-			reLit("("), reLit(")"), reLit("*"), reLit("+"), reLit(","), reLit(";"), reLit("="), reLit(":"), reLit("@")))
+			reLit("/"), reLit("-"), reLit("."), reLit("_"), reLit("~"), reLit("$"), reLit("&"),
+			reLit("+"), reLit(","), reLit(";"), reLit("="), reLit(":"), reLit("@")))
 		e.requireStub(mkInRe(path, safe), "url.URL.Path consists of characters that EscapedPath leaves alone")
 		res := mkIte(mkEq(path, mkStr("")), mkStr("/"), path)
 		withQ := mkOr(force, mkNot(mkEq(rawQuery, mkStr(""))))
 		return mkConcat(res, mkIte(withQ, mkConcat(mkStr("?"), rawQuery), mkStr("")))
+	}
+
+	// (*url.URL).EscapedPath: identity on paths that need no escaping (RawPath unset)
+	I["(*net/url.URL).EscapedPath"] = func(e *Exec, fn *ssa.Function, a []Value) Value {
+		p := a[0].(*Pointer)
+		if isNilPtr(p) {
+			e.panicHere("nil pointer dereference (nil *url.URL)")
+		}
+		u := e.load(p).(*StructVal)
+		st := under(p.obj.typ).(*types.Struct)
+		f := func(name string) *Term {
+			for i := 0; i < st.NumFields(); i++ {
+				if st.Field(i).Name() == name {
+					return getAt(u, []int{i}).(*Term)
+				}
+			}
+			e.unsupported("url.URL has no field %s", name)
+			return nil
+		}
+		path := f("Path")
+		e.requireStub(mkEq(f("RawPath"), mkStr("")), "url.URL.RawPath empty")
+		safe := reStar(reUnion(reRange('a', 'z'), reRange('A', 'Z'), reRange('0', '9'),
+			reLit("/"), reLit("-"), reLit("."), reLit("_"), reLit("~"), reLit("$"), reLit("&"),
+			reLit("+"), reLit(","), reLit(";"), reLit("="), reLit(":"), reLit("@")))
+		e.requireStub(mkInRe(path, safe), "url.URL.Path consists of characters that EscapedPath leaves alone")
+		return path
 	}
 
 	I["(time.Duration).Seconds"] = func(e *Exec, fn *ssa.Function, a []Value) Value {
